@@ -16,6 +16,9 @@ CLAIMED['C02'] = ("reference-model monitor: exact rational slab-arrangement DE-9
 CLAIMED['C01'] = ("reference-model monitor: exact rational arrangement oracle judging every result at every arrangement cell (membership, exact area, lineal remainder, isolated points), shape rules, Boolean laws through the same oracle, plus the overlay invariant hook",
   "Exploration by runtime monitoring: generated operand pairs of all 8x8 operand kinds (seven types + typed empties, collections with overlapping members), targeted collection families and UnionMany lists on dense lattices, the large lattice and general-position floats are run through the six entry points; each result is judged against the exact Boolean decomposition of the joint arrangement and the hook VerifOverlayInvariants checks the half-edge structure of each overlay. Holds for the executions observed.",
   "trusts verif/exact (self-consistency checked per case) and the fixed tolerances tau=1e-9*M / sep>=1e-7*M stated in DESIGN.md; near-degenerate inputs below the clearance bound are excluded and counted", "DESIGN.md §3 C01")
+CLAIMED['C19'] = ("runtime monitor over Forward/Reverse executions: inverse round trip within 1e-9 deg and closed-form character oracles (area element, conformality, equidistance, true scale) evaluated on central-difference Jacobians; NaN-failing comparisons",
+  "Exploration by runtime monitoring: every projection is configured over a graticule of centres/origins, 15 standard-parallel pairs in both hemispheres and orders, two radii, zoom 0..30, and evaluated on graticule and PRNG points of its one-to-one domain plus the centre itself; each evaluation is judged by the inverse and by the local character its documentation states. Holds for the configurations and points observed.",
+  "finite-difference Jacobians (h=1e-6 deg, tolerance 1e-5 relative); domain restricted exactly as the property's quantifier states", "DESIGN.md §3 C19")
 REASONS = {}
 hooks_commits = subprocess.run(['git','-C','/repo','log','--format=%h %s'],capture_output=True,text=True).stdout.splitlines()
 hook_commits = [l.split()[0] for l in hooks_commits if l.split(' ',1)[1].startswith('verif hook')]
